@@ -1,0 +1,6 @@
+//go:build !verif
+
+package pipeline
+
+// No-op stub; see verif_on.go (build tag "verif").
+func verifBeforeProcess(Stage, *BlockItem) {}
